@@ -38,7 +38,7 @@ fn check_one<CS: CLCiphersuite>(rep: &Report, ck: &str, c: &Case, keys: &[ClKey]
     let mut st = (c.seed as u64) << 5 | 1;
     let n = c.n;
     let bases = Bases::generate(pk, n);
-    let vals: Vec<Integer> = (0..n).map(|i| attr(c.classes[i], &mut st)).collect();
+    let vals: Vec<Integer> = (0..n).map(|i| attr(c.classes[i % c.classes.len()], &mut st)).collect();
     let msgs: Vec<CL03Message> = vals.iter().cloned().map(CL03Message::new).collect();
     let nn = &pk.N;
     let two_lm = Integer::from(1) << CS::lm;
@@ -62,7 +62,12 @@ fn check_one<CS: CLCiphersuite>(rep: &Report, ck: &str, c: &Case, keys: &[ClKey]
         }
     }
     // selective disclosure for all subsets
-    for u in subsets(n) {
+    let hidden_sets: Vec<Vec<usize>> = if n <= 5 {
+        subsets(n)
+    } else {
+        vec![vec![], (0..n).collect(), vec![0], vec![n - 1], (0..n).step_by(2).collect(), (0..n).filter(|i| i % 3 == 1).collect(), vec![n / 2, n - 1]]
+    };
+    for u in hidden_sets {
         let (m2, b2) = sig.disclose_selectively(&msgs, bases.clone(), pk, &u);
         rep.eval(ck, 1);
         if !sig.verify_multiattr(pk, &b2, &m2) {
@@ -76,7 +81,9 @@ fn check_one<CS: CLCiphersuite>(rep: &Report, ck: &str, c: &Case, keys: &[ClKey]
             }
         }
     }
-    rep.exhaustive(format!("disclose_selectively over all 2^n hidden sets, n = {}", n));
+    if n <= 5 {
+        rep.exhaustive(format!("disclose_selectively over all 2^n hidden sets, n = {}", n));
+    }
     // codecs
     rep.eval(ck, 2);
     let b = sig.to_bytes();
@@ -224,7 +231,7 @@ fn check_one<CS: CLCiphersuite>(rep: &Report, ck: &str, c: &Case, keys: &[ClKey]
     rep.class(&format!("n={}", n));
     rep.class(&format!("key:{}", key.origin));
     for i in 0..n {
-        rep.class(&format!("attr-class:{}", c.classes[i] % 6));
+        rep.class(&format!("attr-class:{}", c.classes[i % c.classes.len()] % 6));
     }
     rep.sample(ck, json!({"key": key.id, "n": n, "attributes": vals.iter().map(short).collect::<Vec<_>>(), "e_bits": e.significant_bits()}));
     Ok(())
@@ -239,6 +246,10 @@ pub fn run_suite(ctx: &Ctx, rep: &Report, suite: ClSuite, n_gen: usize, n_fix: u
     rep.note(format!("{}: {} keys ({} from generate(), {} from fixture primes)", suite.name(), keys.len(), n_gen, keys.len() - n_gen));
     let ck = format!("signatures-{}", suite.name());
     run_cases(ctx, rep, &ck, cases, 60, strat, |c| with_cl!(suite, CS => check_one::<CS>(rep, &ck, c, &keys)));
+    // every attribute count in a contiguous range
+    let sweep: Vec<Case> = (6..=ctx.tier.pick(24usize, 70usize)).map(|n| Case { key: (n * 7919) as u16, n, classes: vec![5, (n % 6) as u8, 4, 5, 2], seed: (ctx.seed as u32).wrapping_add(n as u32) }).collect();
+    let ck2 = format!("attribute-count-sweep-{}", suite.name());
+    par_items(ctx, rep, &ck2, &sweep, |c| with_cl!(suite, CS => check_one::<CS>(rep, &ck2, c, &keys)));
 }
 
 pub fn run(ctx: &Ctx, rep: &Report) -> Meta {
